@@ -204,14 +204,22 @@ pub fn c11(ctx: &Ctx, subj: &dyn DynSubject, ty: &Ty, rep: &mut Report) {
                 }
             }
         }
-        // file-backed entry points that do not zero-extend, on a few cut points
-        let mut fcuts: Vec<usize> = vec![0, enc.header_len.min(len - 1), len - 1];
+        // file-backed entry points that do not zero-extend, on a few cut points of the file that `store` writes
+        // (a crash while storing leaves a prefix of *that* file behind)
+        let path = ctx.tmp.join(format!("c11-{}-{:?}.bin", subj.index(), std::thread::current().id()).replace(['(', ')'], ""));
+        let stored: Vec<u8> = match guard(|| subj.store(v, &path)) {
+            Ok(Ok(())) => std::fs::read(&path).map_err(|e| Fail::new("harness:tmpfile", format!("cannot read back the stored file: {}", e)))?,
+            other => return Err(Fail::new("store-failed", format!("store failed: {:?}", other.map(|r| r.map_err(|e| format!("{:?}", e)))))),
+        };
+        let len = stored.len();
+        let bytes = &stored;
+        let mut fcuts: Vec<usize> = vec![0, enc.header_len.min(len - 1), len - 1, len.saturating_sub(2), len.saturating_sub(9), len.saturating_sub(15)];
         for _ in 0..file_budget {
             fcuts.push(ent.pick(len));
         }
+        fcuts.retain(|k| *k < len);
         fcuts.sort();
         fcuts.dedup();
-        let path = ctx.tmp.join(format!("c11-{}-{:?}.bin", subj.index(), std::thread::current().id()).replace(['(', ')'], ""));
         for &k in &fcuts {
             std::fs::write(&path, &bytes[..k]).map_err(|e| Fail::new("harness:tmpfile", format!("cannot write temp file: {}", e)))?;
             log.extra_evals += 1;
